@@ -348,6 +348,38 @@ def h_oneshot_saved(env, ops, n):
     env.check_vec_eq([x * r for x in list(sv)], phi, f"returned statevector == normalised branch state of the reported string {s} (outcomes in gate order)")
 
 
+def h_allshots(env, ops, n, shots, init_index):
+    """MEASURE-only circuit, finite n_shots, save_mid_circuit_meas, no statevector requested (all shots are run at once), with or
+    without an initial (basis) statevector: every recorded sample - mid-circuit outcomes followed by the final bits - has
+    non-zero Born probability for the evolution FROM THE SUPPLIED initial state, and the frequencies are multiples of 1/n_shots"""
+    from tangelo.linq import Circuit
+    B = Builder(env)
+    circ = Circuit(B.gates(ops), n_qubits=n)
+    psi = R.basis_state(n, init_index or 0)
+    b = make_backend(env, n_shots=shots)
+    kw = {}
+    if init_index is not None:
+        kw["initial_statevector"] = as_array(env, psi)
+    freqs, _ = b.simulate(circ, save_mid_circuit_meas=True, **kw)
+    allf = dict(b.all_frequencies)
+    nm = sum(1 for op in ops if op[0] == "m")
+    tot = 0
+    for key, v in allf.items():
+        tot = tot + v
+        env.check_true(len(key) == nm + n, "sample = one character per MEASURE followed by the register", detail=key)
+        env.check_true(abs(v * shots - round(v * shots)) < 1e-9, "frequencies are multiples of 1/n_shots")
+        phi, _ = run_branch(B, ops, n, psi, list(key[:nm]))
+        amp = phi[int(key[nm:], 2)]
+        p = amp * R.n_conj(amp)
+        zero = (isinstance(p, Sym) and p.p.is_zero()) or (not isinstance(p, Sym) and abs(complex(p)) < 1e-24)
+        env.check_true(not zero, f"recorded sample {key[:nm]}|{key[nm:]} is possible from the initial state {'|' + R.bitstring(init_index, n) + '>' if init_index is not None else '|0..0>'}",
+                       detail=f"Born probability {p}")
+    env.check_true(abs(tot - 1) < 1e-9, "frequencies sum to 1")
+    mid = dict(b.mid_circuit_meas_freqs)
+    env.check_same(sorted(mid), sorted({k[:nm] for k in allf}), "mid-circuit frequencies carry the measured strings")
+    env.check_same(sorted(freqs), sorted({k[nm:] for k in allf}), "returned frequencies carry the final bits")
+
+
 def _first_meas(ops):
     for i, op in enumerate(ops):
         if op[0] != "g":
@@ -520,6 +552,11 @@ def shapes(tier, seed):
                                      dict(ops=ops, n=n, outcome=s, init=init, func_ops=fops, control_kind=kind), modules=MODS))
         if nm != "cm-nested-tail" or tier == "thorough":      # the sum over all nested outcome strings needs more than the quick shape budget
             out.append(Shape(f"total/{nm}", h_total, dict(ops=ops, n=n, func_ops=fops), modules=MODS))
+        if nm in ("m0", "m-depth", "m-first", "mm-adjacent"):
+            for shots in (1, 2):
+                for ii in (None, 0, 2 ** n - 1, 1):
+                    out.append(Shape(f"allshots/{nm}/shots{shots}/init={ii}", h_allshots, dict(ops=ops, n=n, shots=shots, init_index=ii),
+                                     modules=MODS, max_paths=256))
         if not any(op[0] in ("cm", "cmf") for op in ops):
             out.append(Shape(f"oneshot-saved/{nm}", h_oneshot_saved, dict(ops=ops, n=n), modules=MODS, max_paths=64))
         if any(op[0] in ("cm", "cmf") for op in ops):
